@@ -24,7 +24,9 @@ Step(ev) == \/ ev.e = "Handler" /\ Handler
             \/ ev.e = "CacheAdd" /\ CacheAdd(ev.a, ev.ok)
             \/ ev.e = "CacheTimeout" /\ CacheTimeout(ev.a)
             \/ ev.e = "CachePop" /\ CachePop(ev.a)
-            \/ ev.e = "SockOpen" /\ SockOpen(ev.a)
+            \/ ev.e = "SockTry" /\ SockTry(ev.a)
+            \/ ev.e = "SockOpen" /\ SockOpen(ev.a, ev.t)
+            \/ ev.e = "SockFail" /\ SockFail(ev.a)
             \/ ev.e = "SockClose" /\ SockClose(ev.a)
             \/ ev.e = "SockIn" /\ SockIn(ev.a)
             \/ ev.e = "RmSched" /\ RemoveSched(ev.a)
@@ -51,7 +53,8 @@ Report == /\ Stuck
           /\ PrintT(<<"C11REJECT", [tid |-> tid, l |-> l, phase |-> phase, sub |-> sub, tasks |-> tasks,
                                     dying |-> dying, socks |-> socks, caches |-> caches, tmShut |-> tmShut,
                                     rcShut |-> rcShut, reach |-> Reach, initing |-> initing,
-                                    bdying |-> bdying, held |-> held, bsocks |-> bsocks, rmPending |-> rmPending]>>)
+                                    bdying |-> bdying, held |-> held, bsocks |-> bsocks, rmPending |-> rmPending,
+                                    xtasks |-> xtasks, trying |-> trying]>>)
           /\ l' = Len(Ev) + 2
           /\ UNCHANGED <<vars, tid>>
 
